@@ -356,15 +356,17 @@ def main(argv=None):
     # opt-in (pack attribute CALL_SITE_VIEWS = {target: why the verified contract implies the assumed registration}): a target that
     # is registered twice -- VERIFIED on its real body and, abbreviated, as the view its callers use -- is reported as assumed only
     # while some obligation of the verified registration is not discharged (additive: packs without the attribute are unaffected)
-    views = {}
+    views, views_open = {}, {}
     try:
         for tgt, why in dict(getattr(pack, "CALL_SITE_VIEWS", {}) or {}).items():
             qn = tgt.split("/")[-1]
             mine = [o for o in obligations if o["id"].startswith(f"{prop}/{qn}/")]
-            if mine and all(o["status"] == "discharged" for o in mine) and any(c.target == tgt for c in todo):
+            if mine and all(o["status"] in ("proved", "discharged") for o in mine) and any(c.target == tgt for c in todo):
                 views[tgt] = why
+            elif mine:
+                views_open[tgt] = [o["id"] for o in mine if o["status"] not in ("proved", "discharged")]      # still listed under assumed_contracts
     except Exception:  # noqa
-        views = {}
+        views, views_open = {}, {}
     evidence = {
         "property_id": prop, "tier": tier, "seed": seed, "level": "proof",
         "coverage": {
@@ -381,6 +383,7 @@ def main(argv=None):
             "functions_under_contract": fn_infos,
             "assumed_contracts": sorted(({c.target for c in assumed} | assumed_used | set(getattr(pack, "ASSUMED_MODELS", []))) - set(views)),
             "call_site_views_of_verified_contracts": views,
+            "call_site_views_with_open_obligations": views_open,
             "bounded_functions_run_in_thorough_tier_only": skipped_bounded,
             "by_backend_vcs": by_backend,
             "second_solver_cross_check": cross,
